@@ -6,6 +6,7 @@ import pickle
 import re
 import subprocess
 import sys
+import zipfile
 
 from vlib import asm, env
 from vlib.runner import Failure, HarnessError, ShardResult, h64, hypothesis_search
@@ -23,7 +24,10 @@ RULE = (
     "(iv) coverage-guided atheris fuzzing of raw bytes (empty and seeded corpus). Each input is "
     "run through every analysis entry point (Pickled.load, StackedPickle.load, .ast, ast.unparse, "
     "astunparse, Trace.run, check_safety, is_likely_safe(path), CLI decompile / --trace / "
-    "--check-safety [--print-results] [--json-output]), each allowed to return or raise. Oracle = "
+    "--check-safety [--print-results] [--json-output], polyglot.identify_pytorch_file_format / "
+    "find_file_properties, and the same bytes as archive/data.pkl of a zip-format PyTorch file "
+    "through PyTorchModelWrapper(force=True).formats/.pickled + check_safety), each allowed to "
+    "return or raise (evidence classes `returned:<entry point>` count the returns). Oracle = "
     "independent effect monitor: CPython audit events (exec, compile, pickle.find_class, "
     "marshal.loads, os.system/exec*/posix_spawn/fork, subprocess.Popen, socket.*, ctypes.*, file "
     "removal/rename/mkdir, shutil.*) must be absent; import events and sys.modules additions of "
@@ -35,7 +39,8 @@ RULE = (
 )
 ASSUMPTIONS = [
     "a warm-up run on benign inputs precedes recording, so fickling's own lazy imports are done",
-    "polyglot.py's file-format probes are exercised read-only in C17, not here",
+    "polyglot's recursive property discovery (which by design extracts archive members into a "
+    "temporary directory) is not an analysis of a pickle and is exercised in C17, not here",
     "the monitor is CPython's audit-hook mechanism plus directory/sys.modules deltas; an effect "
     "that raises no audit event and leaves no trace in cwd/sys.modules is not observable",
 ]
@@ -92,9 +97,10 @@ def _payload_class(kind, arg):
     return R()
 
 
-def entry_points(data, path, scratch):
+def entry_points(data, path, scratch, zpath=None):
     """yield (name, thunk). Every thunk may return or raise."""
     import ast
+    import warnings
 
     import astunparse
 
@@ -155,7 +161,30 @@ def entry_points(data, path, scratch):
     def cli_check_print():
         cli.main(["fickling", "--check-safety", "--print-results", "--json-output", "report.json", path])
 
-    return [
+    def identify():
+        from fickling import polyglot
+
+        polyglot.identify_pytorch_file_format(path)
+        polyglot.find_file_properties(path)
+        if zpath:
+            polyglot.identify_pytorch_file_format(zpath)
+
+    def torch_wrapper():
+        # the same bytes as the model pickle of a zip-format PyTorch file
+        from fickling.pytorch import PyTorchModelWrapper
+
+        with warnings.catch_warnings():
+            warnings.simplefilter("ignore")
+            w = PyTorchModelWrapper(zpath, force=True)
+            w.formats
+            q = w.pickled
+            q.ast
+            check_safety(q)
+
+    extra = [("polyglot.identify", identify)]
+    if zpath:
+        extra.append(("PyTorchModelWrapper.pickled", torch_wrapper))
+    return extra + [
         ("Pickled.load", parse), ("Pickled.load(stream)", parse_stream),
         ("StackedPickle.load", stacked), ("ast", decompile), ("ast.unparse", unparse),
         ("astunparse", unparse_legacy), ("Trace.run", trace), ("check_safety", safety),
@@ -181,12 +210,16 @@ def observe(data, scratch):
         parts = t.split(".")
         for i in range(1, len(parts) + 1):
             tokens.add(".".join(parts[:i]))
+    zpath = os.path.join(scratch.path, "input.pt")
+    with zipfile.ZipFile(zpath, "w") as z:
+        z.writestr("archive/data.pkl", data)
+        z.writestr("archive/version", "3\n")
     before_files = scratch.listing()
     sandbox.install_sentinels(SENTINELS)
     mods0 = set(sys.modules)
     reached = set()
     msg = None
-    for name, thunk in entry_points(data, path, scratch):
+    for name, thunk in entry_points(data, path, scratch, zpath):
         mods_before = set(sys.modules)
         sink = io.StringIO()
         del sandbox.RESOLVED[:]
@@ -236,7 +269,7 @@ def observe(data, scratch):
     after_files = scratch.listing()
     if msg is None:
         for fn, meta in after_files.items():
-            if fn == "input.pkl":
+            if fn in ("input.pkl", "input.pt"):
                 if before_files.get(fn) != meta:
                     msg = "the input file was modified"
                 continue
@@ -367,7 +400,8 @@ def run_shard(spec, seed):
                 res.note(
                     data,
                     nt,
-                    klass=[kind, "decompiled" if "ast" in reached else "rejected-before-decompile"],
+                    klass=[kind, "decompiled" if "ast" in reached else "rejected-before-decompile"]
+                    + [f"returned:{n}" for n in sorted(reached)],
                     sample={"hex": data.hex(), "kind": kind},
                 )
                 return f
@@ -395,7 +429,7 @@ def run_shard(spec, seed):
                     continue
                 f, reached = judge(data, scratch)
                 n += 1
-                res.note(None, "ast" in reached, klass="cell", sample={"cell": cell, "hex": data.hex()})
+                res.note(None, "ast" in reached, klass=["cell"] + [f"returned:{n}" for n in sorted(reached)], sample={"cell": cell, "hex": data.hex()})
                 if f is not None:
                     f.case["cell"] = cell
                     res.failures.append(f)
